@@ -192,3 +192,54 @@ func (in *Input) NewWorld(r *rng.R, doc *ast.Document) *World {
 
 // Observe encodes Response.Data (ordered JSON) and Errors[].Path/.Locations.
 func Observe(resp *graphql.Response) sexp.Node { return observe(resp) }
+
+// ---- asynchronous resolvers (C03 only) ----
+
+// AsyncHook, when set, receives every resolver answer of the generated schemas and may hand it
+// back wrapped in a promise.
+var AsyncHook func(v interface{}, err error) (interface{}, error)
+
+// Scheduler turns about half of the resolver answers into promises and is the request's idle
+// handler: every idle round fulfils at least one outstanding promise (all of them in order, the
+// newest one, or a random one — fixed per case).
+type Scheduler struct {
+	r       *rng.R
+	mode    int
+	pending []func()
+	Rounds  int
+}
+
+func NewScheduler(r *rng.R) *Scheduler { return &Scheduler{r: r, mode: r.Intn(3)} }
+
+func (s *Scheduler) Hook(v interface{}, err error) (interface{}, error) {
+	if !s.r.Chance(1, 2) {
+		return v, err
+	}
+	ch := make(graphql.ResolvePromise, 1)
+	s.pending = append(s.pending, func() { ch <- graphql.ResolveResult{Value: v, Error: err} })
+	return ch, nil
+}
+
+func (s *Scheduler) Idle() {
+	s.Rounds++
+	if len(s.pending) == 0 {
+		panic("harness: idle handler called without outstanding promise")
+	}
+	switch s.mode {
+	case 0:
+		p := s.pending
+		s.pending = nil
+		for _, f := range p {
+			f()
+		}
+	case 1:
+		f := s.pending[len(s.pending)-1]
+		s.pending = s.pending[:len(s.pending)-1]
+		f()
+	default:
+		i := s.r.Intn(len(s.pending))
+		f := s.pending[i]
+		s.pending = append(s.pending[:i], s.pending[i+1:]...)
+		f()
+	}
+}
